@@ -104,7 +104,7 @@ Definition ex_ops : list op :=
   ; OCopy ex_b ex_c
   ; ODelete ex_b
   ; OPull ex_b (Some (MkServed (MkManifest (MkLayer 8 (MkDigest true 40) 50) [MkLayer 0 (MkDigest true 1) 11; MkLayer 4 (MkDigest true 41) 51])
-                               [Some 1; Some 41; Some 40]))
+                               [Some 1; Some 41; Some 40])) []
   ; OStartup ].
 
 Example C04_example_guards : op_guards ex_sz empty_store ex_ops.
@@ -169,7 +169,7 @@ Definition up_host : name := MkName [82;101;103;105;115;116;114;121;46;79;108;10
 Definition legacy_pull_ops : list op :=
   [ OBlob (MkDigest true 1) 1
   ; OCreate (MkCreate up_host (BFiles (MkDigest true 1) [(0, None)] false []) None None [] None None 30)
-  ; OPull (nm [109] [116]) (Some (MkServed (MkManifest (MkLayer 8 (MkDigest true 40) 50) [MkLayer 0 (MkDigest true 1) 11]) [Some 1; Some 40])) ].
+  ; OPull (nm [109] [116]) (Some (MkServed (MkManifest (MkLayer 8 (MkDigest true 40) 50) [MkLayer 0 (MkDigest true 1) 11]) [Some 1; Some 40])) [] ].
 
 Theorem C04_pull_case_legacy_refuted :
   (let s := fold_left (exec_legacy ex_sz) legacy_pull_ops empty_store in
